@@ -112,7 +112,30 @@ func CheckFunc(P *Program, fn *ssa.Function, c *FuncContract) (rep *FuncReport) 
 	for _, fv := range fn.FreeVars {
 		v := ex.symbolicInput(st, "free:"+fv.Name(), fv.Type())
 		st.vals[fv] = v
-		ex.facts = append(ex.facts, p.Gt(v, p.Int(0)))
+		// go/ssa captures a variable by value when it is never reassigned (then the free variable has the
+		// variable's own type); otherwise the free variable is a pointer to the variable's cell.
+		captured := false
+		if par := fn.Parent(); par != nil {
+			for _, pp := range par.Params {
+				if pp.Name() == fv.Name() && types.Identical(pp.Type(), fv.Type()) {
+					captured = true
+				}
+			}
+		}
+		if captured {
+			vars[fv.Name()] = tv{v, fv.Type()}
+		} else {
+			ex.facts = append(ex.facts, p.Gt(v, p.Int(0)))
+			// captured by reference: the name denotes the variable's value at entry
+			if pt, ok := fv.Type().Underlying().(*types.Pointer); ok {
+				ex.noOblige++
+				cur := ex.load(st, ex.asPtr(v, pt.Elem()), pt.Elem(), "")
+				ex.noOblige--
+				ex.facts = append(ex.facts, ex.tm.InRange(cur, pt.Elem(), 0))
+				ex.pointerBound(st, cur, pt.Elem())
+				vars[fv.Name()] = tv{cur, pt.Elem()}
+			}
+		}
 	}
 	ex.old = st.fork()
 	pre := &EvalCtx{ex: ex, st: st, old: ex.old, vars: vars, pkgPath: c.PkgPath}
